@@ -46,6 +46,9 @@
    C18_assemble_total: with C06_no_out_of_fuel, no panic and no fuel outcome between the source text and the file;
    C18_reference_image_partial: with C05's reference layout (`_partial` because C05's class is: single file, no .dfile,
    deferred instructions only branches), the file decodes to exactly the reference image.
+   C18_reference_image_project_partial: the same for whole PROJECTS (`.include` to any depth, `.global/.import/.export`) with the
+   multi-file reference LayoutSpecExt.layout_spec_ext and the project class of C05 (LayoutMulti.C05_project_class, see
+   C05_project_class_def in Properties/C05.v), both build profiles, every include fuel >= 8.
 
    Everything else of the property is proved for the model, in both build profiles (dbg): no theorem about the
    post-processing is `_partial`.
@@ -63,6 +66,7 @@ From Trion Require Text.Types Text.ParseModel Asm.CtxModel Asm.LayoutSpec Asm.La
 From Trion Require Import Bin.TriasModel Bin.ImageSpec Bin.TriasProofs Bin.TriasProofs2 Bin.TriasProofs3 Bin.TriasProofs4
   Bin.TriasEmit Bin.TriasProofs5 Bin.TriasProofs6.
 From Trion Require Import Bin.PipeBytesMap Bin.PipeBytesText Bin.TriasPipeline.
+From Trion Require Asm.LayoutSpecExt Asm.LayoutMulti Asm.LayoutMultiCheck Bin.TriasProject.
 Import ListNotations.
 Open Scope N_scope.
 
@@ -288,6 +292,20 @@ Theorem C18_reference_image_partial : forall fs path text els placed env, fs_byt
     /\ image_ok (LayoutBytes.image_dict placed) file = true.
 Proof. exact reference_image. Qed.
 
+(* the same for whole projects: root text + included files; placed = the statements of all file instances the scoped two-pass
+   reference LayoutSpecExt.layout_spec_ext lays out (files read relative to the root file: rel_fs), image_dict_x placed its
+   dictionary.  `_partial`: the project class of C05 (single-file class per statement w.r.t. the final table of its file
+   instance, a declared-but-unvalued name only as a bare operand, `.import` of valued names only, no collision). *)
+Theorem C18_reference_image_project_partial : forall dbg fs fuel path text els placed names, (8 <= fuel)%nat -> fs_bytes fs -> bytes text ->
+  LayoutMulti.parse_els text = Some els ->
+  LayoutSpecExt.layout_spec_ext (LayoutFinal.rel_fs fs path) LayoutMulti.parse_ref (map Types.e_val els) = Some (placed, names) ->
+  LayoutMulti.C05_project_class fs path (map Types.e_val els) ->
+  page0_free (LayoutMulti.image_dict_x placed) -> LayoutMulti.image_dict_x placed <> [] ->
+  must_refuse (LayoutMulti.image_dict_x placed) = false ->
+  exists file, trias_assemble dbg fs fuel path text = Ran (POk file)
+    /\ image_ok (LayoutMulti.image_dict_x placed) file = true.
+Proof. exact TriasProject.reference_image_project. Qed.
+
 (* non-vacuity of the end-to-end statements, by evaluation of tokenizer, parser, Context model, post-processing and
    oracle: a two-region program with a forward branch and a string assembles to a file the oracle accepts for the
    pipeline's regions; a boot-sector program gets its checksum; an undefined symbol writes nothing *)
@@ -309,3 +327,26 @@ Theorem C18_end_to_end_examples :
        (DisplayModel.bytes_of_string ".addr 0x20000000; .du32 nowhere;") = Ran (Refused R_diagnostics)
   /\ fst (match trias_main false (fun _ => None) CtxModel.include_fuel [[0x74]; [0x61]; [0x6F]] with Ran r => r | _ => ([E_stdout_success], None) end) = [].
 Proof. vm_compute. repeat split; reflexivity. Qed.
+
+(* non-vacuity of C18_reference_image_project_partial: the 3-file project of C05_project_examples (root includes a and b; a
+   exports a label, b imports a constant; forward references across the includes), based at 0x20000000: the file `trias`
+   writes is accepted by the oracle for the multi-file REFERENCE image, and the project passes the class check *)
+Theorem C18_reference_image_project_examples :
+  let src := DisplayModel.bytes_of_string in
+  let t_root := src ".addr 0x20000000; .const k, 5; .du32 alab; B fwd; .include ""a.asm""; .du32 alab + ag; .include ""b.asm""; fwd: .du32 bsum; .du8 k;" in
+  let t_a := src ".const tmp, 1; .global ag; alab: .du16 later; .du8 tmp; .align 2; B ag; .du32 ag; .const later, 0x1234; ag: .export alab; B alab;" in
+  let t_b := src ".import k; .const tmp, 2; .du8 tmp; .align 4; .du32 k + 1; .const bsum, k * 2 + tmp; .export bsum;" in
+  let fs : Types.str -> option (list N) := fun v =>
+    if AsmStmtModel.str_eqb v (src "a.asm") then Some t_a else if AsmStmtModel.str_eqb v (src "b.asm") then Some t_b else None in
+  let root := src "root.asm" in
+  match LayoutMulti.parse_ref t_root with
+  | Some prog =>
+      match LayoutSpecExt.layout_spec_ext (LayoutFinal.rel_fs fs root) LayoutMulti.parse_ref prog, trias_assemble false fs 8 root t_root with
+      | Some (placed, _), Ran (POk file) =>
+          image_ok (LayoutMulti.image_dict_x placed) file && LayoutMultiCheck.project_check fs root prog &&
+          negb (must_refuse (LayoutMulti.image_dict_x placed)) && N.eqb (len (LayoutMulti.image_dict_x placed)) 33
+      | _, _ => false
+      end
+  | None => false
+  end = true.
+Proof. vm_compute. reflexivity. Qed.
